@@ -295,7 +295,48 @@ def min_max_iter(I, st, name, v, node):
 
 
 def list_sort(I, st, obj, kwargs, node):
-    raise Unsupported("list.sort (line %s): give the enclosing function a trusted-step contract" % getattr(node, "lineno", "?"))
+    """lst.sort(key=f, reverse=b) -- assumed builtin contract: afterwards the list is a permutation of what it was
+    (bijection perm/inv on the index range) and the keys are in (reverse) order.  f must be pure."""
+    from . import calls
+    kd = I.kd_of(obj)
+    ln, items = I.list_len(st, obj), I.list_items(st, obj)
+    keyf = kwargs.get("key")
+    rev = kwargs.get("reverse")
+    reverse = False
+    if rev is not None:
+        rv = z3.simplify(I.truthy(st, rev))
+        if not (z3.is_true(rv) or z3.is_false(rv)):
+            raise Unsupported("list.sort with a symbolic `reverse`")
+        reverse = z3.is_true(rv)
+    new = st.fresh(items.sort(), "sorted")
+    perm = z3.Function(st.fresh_name("perm"), z3.IntSort(), z3.IntSort())
+    inv = z3.Function(st.fresh_name("pinv"), z3.IntSort(), z3.IntSort())
+    i = z3.FreshConst(z3.IntSort(), "si")
+    j = z3.FreshConst(z3.IntSort(), "sj")
+    rng = lambda x: z3.And(0 <= x, x < ln)
+    st.assume(z3.ForAll([i], z3.Implies(rng(i), z3.And(rng(perm(i)), z3.Select(new, i) == z3.Select(items, perm(i)), inv(perm(i)) == i))))
+    st.assume(z3.ForAll([j], z3.Implies(rng(j), z3.And(rng(inv(j)), perm(inv(j)) == j))))
+
+    def key_of(idx):
+        ev = I.elem_val(st, kd, z3.Select(new, idx))
+        if keyf is None:
+            return ev
+        st.spec_depth += 1
+        try:
+            return calls.call_value(I, st, keyf, [ev], {}, node)
+        finally:
+            st.spec_depth -= 1
+    st.bound_stack.extend([i, j])
+    st.spec_side.append([])
+    try:
+        ki, kj = key_of(i), key_of(j)
+    finally:
+        st.spec_side.pop()
+        del st.bound_stack[-2:]
+    le = (ki.term >= kj.term) if reverse else (ki.term <= kj.term)
+    st.assume(z3.ForAll([i, j], z3.Implies(z3.And(0 <= i, i < j, j < ln), le)))
+    I.set_list(st, obj, ln, new)
+    return NONE
 
 
 def iter_builtin(I, st, name, args, kwargs, node):
